@@ -279,6 +279,60 @@ func c16Blinding(r *core.Run) {
 		st    int
 		extra []byte
 	}
+	// instants at the edges of what time.Time expresses as a four-digit calendar year, the zero instant, the
+	// epoch and its neighbours, a leap day, the 32-bit rollover, and the wall clock: "deterministic function
+	// of (destination, secret, UTC calendar day)" holds for each of them like for any other instant
+	extreme := []time.Time{
+		{}, time.Time{}.Add(time.Nanosecond), time.Time{}.In(time.FixedZone("UTC-12", -12*3600)),
+		time.Unix(0, 0), time.Unix(-1, 0), time.Unix(1, 0).In(time.FixedZone("UTC+14", 14*3600)),
+		time.Date(9999, 12, 31, 23, 59, 59, 999999999, time.UTC), time.Date(1, 1, 1, 23, 59, 59, 0, time.UTC),
+		time.Date(2032, 2, 29, 12, 0, 0, 0, time.UTC), time.Unix(1<<31, 0), time.Unix(1<<32, 0), time.Now(),
+	}
+	for _, st := range []int{7, 11} {
+		kp := gen.Key(st, 81)
+		k := refmodel.NewKAC(st, 4, false, nil, refmodel.Fill("bc", 1, 32), refmodel.Fill("bp", 1, 320), kp.Pub)
+		d, _, err := destination.ReadDestination(k.Bytes())
+		if err != nil {
+			continue
+		}
+		secret := secrets[1]
+		for xi, inst := range extreme {
+			r.Evaluations.Add(1)
+			dateStr := inst.UTC().Format("2006-01-02")
+			alpha, err := kdf.DeriveBlindingFactor(secret, dateStr)
+			if err != nil {
+				continue
+			}
+			want, _ := blindRef(kp.Pub, alpha)
+			cs := core.Case{Kind: "blind", Args: map[string]string{"sigtype": fmt.Sprint(st), "instant": inst.Format(time.RFC3339Nano), "extreme": fmt.Sprint(xi)}}
+			id := fmt.Sprintf("C16|blinding|sigtype=%d", st)
+			var b1, b2 destination.Destination
+			var e1, e2 error
+			if pan, msg := core.Guard(func() {
+				b1, e1 = encrypted_leaseset.CreateBlindedDestination(d, secret, inst)
+				b2, e2 = encrypted_leaseset.CreateBlindedDestination(d, secret, inst.UTC().Truncate(24*time.Hour).Add(11*time.Hour))
+			}); pan {
+				r.Violate(id+"|create-panics[unusual-instant]", fmt.Sprintf("CreateBlindedDestination panics for the instant %s: %s", inst.Format(time.RFC3339Nano), msg), cs)
+				continue
+			}
+			if e1 != nil || e2 != nil {
+				r.AddNote("blinding_unusual_instants_refused", 1)
+				continue
+			}
+			k1, _ := b1.SigningPublicKey()
+			k2, _ := b2.SigningPublicKey()
+			if k1 == nil || !bytes.Equal(k1.Bytes(), want) {
+				r.Violate(id+"|blinded-key-differs-from-A+alpha*B[unusual-instant]", fmt.Sprintf("instant %s: blinded key is not A + alpha*B for its UTC day %s", inst.Format(time.RFC3339Nano), dateStr), cs)
+			}
+			if k1 == nil || k2 == nil || !bytes.Equal(k1.Bytes(), k2.Bytes()) {
+				r.Violate(id+"|differs-within-a-utc-day[unusual-instant]", fmt.Sprintf("instant %s and 11:00 UTC of the same calendar day %s give different blinded keys", inst.Format(time.RFC3339Nano), dateStr), cs)
+			}
+			if !encrypted_leaseset.VerifyBlindedSignature(b1, d, alpha) {
+				r.Violate(id+"|verify-false-for-derived-factor[unusual-instant]", fmt.Sprintf("VerifyBlindedSignature is false for the factor derived for the UTC day %s of the instant %s", dateStr, inst.Format(time.RFC3339Nano)), cs)
+			}
+			r.Distinct([]byte("blind-extreme"), []byte{byte(st), byte(xi)})
+		}
+	}
 	for _, bd := range []bdest{{7, nil}, {11, nil}, {7, []byte{0xde, 0xad, 0xbe, 0xef, 0x01}}, {11, []byte{0x01}}} {
 		st := bd.st
 		kp := gen.Key(st, 81)
